@@ -267,25 +267,29 @@ structure Wf (s : Summary) (c : Case) (i0 : Inst) : Prop where
   ok : s.ok = true
   mutIn : ∀ m, c.mutate = some m → m ∈ s.names
   proto : ∀ p, c.op = .pickle p → p ≤ 5
+  excOk : c.exc = true → s.anyOptOutOrUser = false ∧ isLegacy c.op = false
   cons : construct s v0 c.assignUnset = some i0
   allSet : ∀ n ∈ s.names, (read s.layout i0 n).isSome = true
 
-theorem wf_unpack {c : Case} (h : wf c = true) : ∃ i0, Wf (summarize c.chain) c i0 := by
+theorem wf_unpack {c : Case} (h : wf c = true) : ∃ i0, Wf (summarize (fullChain c)) c i0 := by
   unfold wf at h
   simp only [Bool.and_eq_true] at h
-  obtain ⟨⟨⟨⟨⟨_, h1⟩, h2⟩, h3⟩, h4⟩, h5⟩ := h
-  cases hc : construct (summarize c.chain) v0 c.assignUnset with
+  obtain ⟨⟨⟨⟨⟨⟨⟨⟨_, h1⟩, h2⟩, h3⟩, h4⟩, _⟩, _⟩, h7⟩, h5⟩ := h
+  cases hc : construct (summarize (fullChain c)) v0 c.assignUnset with
   | none => rw [hc] at h5; simp at h5
   | some i0 =>
     rw [hc] at h5
     simp only [List.all_eq_true] at h5
-    refine ⟨i0, h1, h2, ?_, ?_, hc, h5⟩
+    refine ⟨i0, h1, h2, ?_, ?_, ?_, hc, h5⟩
     · intro m hm
       rw [hm] at h3
       simpa using h3
     · intro p hp
       rw [hp] at h4
       simpa using h4
+    · intro he
+      rw [he] at h7
+      simpa using h7
 
 /-- the instance the operation is applied to (`hashed = c.hashedBefore`) and the freshly built equal
     instance (`hashed = false`) -/
